@@ -24,7 +24,7 @@ func init() {
 			{ID: "C05.R1", Min: 3, Doc: "single writer: goroutine roots (functions started with `go`, or uncalled entry points) from which (*Writer).Write / flush and the socket's Write are reachable over call/defer edges must be {(*Conn).HandleData}", Run: c05r1},
 			{ID: "C05.R2", Min: 2, Doc: "synchronous FIFO hand-off: every send on Conn.In is reachable from relay without a go edge; Conn.Write is called from HandleData without a go edge; Conn.In has one receiver loop besides the redo drain", Run: c05r2},
 			{ID: "C05.R3", Min: 1, Doc: "write trace per line: path enumeration of Conn.Write with `pickle` as a path-consistent boolean", Run: c05r3},
-			{ID: "C05.R4", Min: 1, Doc: "pickle framing: binary.Write(msgBuf, binary.BigEndian, uint32(payload.Len())) dominates msgBuf.Write(payload.Bytes()) on the same buffers", Run: c05r4},
+			{ID: "C05.R4", Min: 1, Doc: "pickle framing: the byte layout of what Pickle returns — evaluated over the buffers and slices it allocates, whichever API writes them (binary.Write, ByteOrder.PutUint32/AppendUint32, Buffer.Write, copy, append, an encoder bound to the buffer) — is [4 bytes big-endian holding the length of the rest][the encoder's output], the length being taken after the encoder ran", Run: c05r4},
 			{ID: "C05.R5", Min: 3, Doc: "buffered writer structure: the direct wr.Write(p) is dominated by the true edge of `Buffered() == 0`; copy destinations are buf[n:]; flush writes buf[0:n]", Run: c05r5},
 		},
 	})
@@ -314,64 +314,41 @@ func isGlobalLoad(v ssa.Value, g *ssa.Global) bool {
 
 func c05r4(c *Check) {
 	fn := c.P.Func("destination", "", "Pickle")
-	var bw, mw *ssa.Call
-	allInstrs(fn, func(in ssa.Instruction) {
-		call, ok := in.(*ssa.Call)
-		if !ok {
-			return
-		}
-		switch calleeName(call.Common()) {
-		case "encoding/binary.Write":
-			bw = call
-		case "(*bytes.Buffer).Write":
-			mw = call
-		}
+	// what Pickle returns, as a byte layout (bytelayout.go): whichever API writes the bytes
+	st := evalByteLayout(fn, func(name string) (bool, bool) {
+		return strings.HasSuffix(name, "og-rek.NewEncoder"), strings.HasSuffix(name, "og-rek.Encoder).Encode")
 	})
-	if bw == nil || mw == nil {
-		c.Violate("destination.Pickle length prefix", c.AtFn(fn), "length prefix / payload writes not found in the expected form (binary.Write + Buffer.Write)")
-		return
+	key := "destination.Pickle length prefix"
+	want := "[4-byte big-endian length of the payload][payload = the encoder's output]"
+	var msg blView
+	okView := false
+	if st.Problem == "" && len(st.Ret) == 1 {
+		msg, okView = st.Ret[0].(blView)
 	}
-	// order: BigEndian
-	isBE := false
-	if mi, ok := bw.Call.Args[1].(*ssa.MakeInterface); ok {
-		if u, ok := mi.X.(*ssa.UnOp); ok {
-			if g, ok := u.X.(*ssa.Global); ok && g.Name() == "BigEndian" {
-				isBE = true
+	switch {
+	case !okView:
+		c.Undecided(key, c.AtFn(fn), "the returned message is not a byte slice / buffer content assembled in this function from fresh memory ("+st.Problem+"): its layout "+want+" cannot be established")
+	case msg.l.unknown != "":
+		c.Undecided(key, c.At(st.RetInstr), "the layout of the returned message is not known: "+msg.l.unknown)
+	case msg.gen != msg.l.gen || !msg.off.isZero() || !msg.end.eq(msg.l.total()):
+		c.Violate(key, c.At(st.RetInstr), "the returned slice is not the whole assembled message "+msg.l.String()+" (it was taken before the last write, or is a part of it)")
+	default:
+		segs := msg.l.segs
+		payload := lenConst(0)
+		okPayload := len(segs) >= 2
+		for _, sg := range segs[1:] {
+			if sg.kind != 'E' {
+				okPayload = false
 			}
+			payload = payload.add(sg.n, 1)
 		}
-	}
-	// value: uint32(dataBuf.Len())
-	var lenOf ssa.Value
-	isU32 := false
-	if mi, ok := bw.Call.Args[2].(*ssa.MakeInterface); ok {
-		if b, ok := mi.X.Type().Underlying().(*types.Basic); ok && b.Kind() == types.Uint32 {
-			isU32 = true
+		ok := okPayload && segs[0].kind == 'H' && segs[0].be && segs[0].n.eq(lenConst(4)) && segs[0].val.eq(payload)
+		bad := "the pickle frame is " + msg.l.String()
+		if len(segs) > 0 && segs[0].kind == 'H' {
+			bad += fmt.Sprintf(" with the integer holding %s while what follows it is %s long", describeLen(segs[0].val), describeLen(payload))
 		}
-		if cv, ok := mi.X.(*ssa.Convert); ok {
-			if lc, ok := cv.X.(*ssa.Call); ok && calleeName(lc.Common()) == "(*bytes.Buffer).Len" {
-				lenOf = lc.Call.Args[0]
-			}
-		}
+		c.Judge(ok, key, c.At(st.RetInstr), "the returned message is "+msg.l.String()+", the integer being the length of what follows", bad+", not "+want+": the receiving carbon daemon cannot delimit the datapoints")
 	}
-	// payload: dataBuf.Bytes() of the same buffer
-	var payloadOf ssa.Value
-	if bc, ok := mw.Call.Args[1].(*ssa.Call); ok && calleeName(bc.Common()) == "(*bytes.Buffer).Bytes" {
-		payloadOf = bc.Call.Args[0]
-	}
-	// destination buffers equal
-	var dst1 ssa.Value
-	if mi, ok := bw.Call.Args[0].(*ssa.MakeInterface); ok {
-		dst1 = mi.X
-	}
-	okAll := isBE && isU32 && lenOf != nil && lenOf == payloadOf && dst1 == mw.Call.Args[0] && instrDominates(bw, mw)
-	// the encoder writes into the payload buffer before its length is taken
-	encBefore := false
-	allInstrs(fn, func(in ssa.Instruction) {
-		if call, ok := in.(*ssa.Call); ok && strings.HasSuffix(calleeName(call.Common()), "og-rek.Encoder).Encode") && instrDominates(call, bw) {
-			encBefore = true
-		}
-	})
-	c.Judge(okAll && encBefore, "destination.Pickle length prefix", c.At(bw), "big-endian uint32 length of the encoded payload, written before that payload into the same message buffer", "the pickle frame is not [4-byte big-endian length of the payload][payload]: the receiving carbon daemon cannot delimit the datapoints")
 	// tuple layout: (name, (time, value))
 	okTuple := false
 	allInstrs(fn, func(in ssa.Instruction) {
